@@ -9,6 +9,8 @@ hook_commits = [l.split()[0] for l in hooks if "verif hooks" in l]
 
 T = "machine-checked proof in Coq + model/implementation correspondence"
 CLAIMS = {
+ "C06": ("proof", "Coq theorems: the 16-byte generator state round-trips through GetCurSeed/UnmarshalBinary, a captured state installed in a fresh source continues the identical sequence for any number of draws, draws compose across a save/restore point, min/max modes never touch the generator; decidable confinement condition on the footprint table regenerated from /repo (the package-level generator is touched only by Roll's nil-source fallback and GetCurSeed, under the mutex; no package-level math/rand calls); Init/Uint64/GetCurSeed exact correspondence with the PCG model; Go-vs-Go search: same seed twice, package generator perturbed and unrelated unseeded VMs in between, resume on a fresh VM — every dice family and the random array methods",
+         "trusted: Coq kernel+vm_compute, harness, go/ast footprint scanner; the per-opcode non-interference statement is decided by search until the VM model is in place; recorded finding: Go map order visible through dict iteration", "DESIGN.md §6 C06"),
  "C11": ("proof", "logic half proved in Coq: (1) decidable footprint condition over the table of package-level variable uses REGENERATED from /repo on every run (outside init, package state is only read, or accessed under a lock / by the explicit host setter; no package-level math/rand calls; the package generator is touched only by Roll's nil-source fallback and GetCurSeed under the mutex), (2) schedule-independence theorem: steps that are functions of immutable shared state and the VM's own state give every VM, under EVERY interleaving, the state it reaches alone. Runtime half: N goroutines x own VMs (seeded/unseeded, 3 languages, random flags) compared with isolated runs, and the same workload under the Go race detector",
          "trusted: Coq kernel+vm_compute, go/ast footprint scanner, harness; data-race freedom per the Go memory model is sampled evidence (race detector), not a theorem — partial", "DESIGN.md §6 C11"),
  "C13": ("proof", "Coq theorems for all texts, all four delimiters, all escape choices: literal round trip lex(quote(escape s)) = s, generic in the escape table (table_ok re-established, table probed against the real lexer for every byte x delimiter on each run), representability hypothesis proved necessary; template level on a VM fragment: a hole leaves exactly one value whatever its code did above the saved height, templates concatenate segments and hole values in order, nest to the accepted depth, the 21st nested hole is an error; exact correspondence on random texts and templates through the real parser+VM",
